@@ -16,6 +16,41 @@ from .index import Repo
 from .report import Check, analysis_error
 
 
+# The statement of a property often rests on another one ("the contract, declarer, tricks and score that follow from those
+# by the rules" in C08 are C02/C03/C04/C07's subject).  The rules of the properties listed here are evaluated again inside the
+# dependent check and their findings are reported under <pid>.D, so that a change to an engine or converter is reported by every
+# property whose statement it falsifies.  (Findings only; an analysis error inside a dependency is noted, the dependency's own
+# check reports it.)
+DEPENDS = {
+    'C08': ['C02', 'C03', 'C04', 'C07'],
+    'C09': ['C02', 'C04'],
+    'C10': ['C02', 'C04'],
+    'C11': ['C04', 'C03'],        # C05 is evaluated inside sa.rules.c11 itself (R2)
+    'C12': ['C15'],
+    'C17': ['C14', 'C15'],
+    'C18': ['C14', 'C15'],
+    'C19': ['C15'],
+    'C13': [],
+}
+
+
+def run_dependencies(chk) -> None:
+    from .index import AnalysisError
+    for dep in DEPENDS.get(chk.pid, []):
+        shadow = Check(dep, chk.tier, chk.repo, chk.seed)
+        rule = f'{chk.pid}.D'
+        try:
+            importlib.import_module(f'sa.rules.{dep.lower()}').run(shadow)
+        except AnalysisError as e:
+            chk.note(f'dependency {dep} could not be evaluated ({e.rule}: {e.why[:160]}); see the {dep} check')
+            continue
+        chk.evals(shadow.evaluations)
+        for f in shadow.findings:
+            chk.fail(rule, f.where, f.qual, f'[{f.rule}] {f.construct}', f'(the statement of {chk.pid} rests on {dep}) {f.reason}', **f.extra)
+        if not shadow.findings:
+            chk.ok(rule, f'rules of {dep}', f'{dep}: {shadow.discharged} obligations of the property {chk.pid} rests on are discharged')
+
+
 def run_property(pid: str, tier: str, repo_root: str, seed: int, only_key=None) -> int:
     try:
         repo = Repo(repo_root)
@@ -24,6 +59,7 @@ def run_property(pid: str, tier: str, repo_root: str, seed: int, only_key=None) 
         mod.run(chk)
         from .rules import hygiene
         hygiene.run(chk)
+        run_dependencies(chk)
         if tier == 'thorough' and not only_key and os.environ.get('SA_NO_SELFTEST') != '1':
             from . import selftest
             selftest.run_for(chk)
